@@ -11,7 +11,8 @@ type Profile struct {
 	Dups       bool // duplicate deliveries
 	Expiry     bool // forget / long advances / stale-route cleanup
 	Dynamic    bool // connect / disconnect / addlocal during the run
-	Limits     int  // 0 none; 1 = small uniform limit; 2 = per-node limits
+	Limits     int  // 0 none; 1 = small uniform limit; 2 = per-node limits; 3 = uniform limit at the boundary (diameter-1 / diameter / diameter+1)
+	Tree       bool // topology is a random tree (unique paths: expectations under hop limits do not depend on delivery order)
 	Agent      bool // nodes through agent.New
 	Chain      bool // topology is a chain 0-1-..-(n-1)
 	Adj        [][]bool
@@ -36,6 +37,32 @@ func RandomGraph(r *vh.Rand, n int) [][]bool {
 		}
 	}
 	return adj
+}
+
+// RandomTree returns a random tree on n nodes.
+func RandomTree(r *vh.Rand, n int) [][]bool {
+	adj := make([][]bool, n)
+	for i := range adj {
+		adj[i] = make([]bool, n)
+	}
+	for i := 1; i < n; i++ {
+		j := r.Intn(i)
+		adj[i][j], adj[j][i] = true, true
+	}
+	return adj
+}
+
+// Diameter is the largest distance between two nodes of a connected graph.
+func Diameter(adj [][]bool) int {
+	d := 0
+	for a := range adj {
+		for b := range adj {
+			if p := bfsPath(adj, a, b); len(p) > d {
+				d = len(p)
+			}
+		}
+	}
+	return d
 }
 
 // ChainGraph is 0-1-...-(n-1).
@@ -87,6 +114,8 @@ func NewGen(r *vh.Rand, p Profile) (*Case, Gen) {
 		n = len(adj)
 	} else if p.Chain {
 		adj = ChainGraph(n)
+	} else if p.Tree {
+		adj = RandomTree(r, n)
 	} else {
 		adj = RandomGraph(r, n)
 	}
@@ -100,6 +129,15 @@ func NewGen(r *vh.Rand, p Profile) (*Case, Gen) {
 			if l < 1 {
 				l = 1
 			}
+		}
+		for i := range c.Limits {
+			c.Limits[i] = l
+		}
+	case 3:
+		d := Diameter(adj)
+		l := d + r.Pick(-1, 0, 0, 0, 1)
+		if l < 1 {
+			l = 1
 		}
 		for i := range c.Limits {
 			c.Limits[i] = l
